@@ -226,6 +226,25 @@ UNITS.append(dict(name="c01_prm_addMilestone", template="C01/prm_milestone.c", m
                   canaries=[dict(name="edge_without_motion_check", where="body:addMilestone", rx=r"if \(CM\(SP\[n\], SP\[m\]\)\)", repl="if (CM(SP[n], SP[m]) || 1)"),
                             dict(name="components_not_united", where="body:addMilestone", rx=r"UNITE\(n, m\);", repl="")]))
 
+# roadmap planners: a new problem definition forgets the old query's start/goal milestones (otherwise the old query's path is reported for the new one) -- units of C03
+def _c03_query_units():
+    sp = importlib.util.spec_from_file_location("c03q", os.path.join(os.path.dirname(__file__), "C03.py")); m = importlib.util.module_from_spec(sp)
+    import sys as _sys
+    if _sys.modules.get("_c01_loading"):      # C03 imports C01: avoid the cycle
+        return []
+    _sys.modules["_c01_loading"] = True
+    try:
+        sp.loader.exec_module(m)
+    finally:
+        del _sys.modules["_c01_loading"]
+    import copy as _copy
+    out = []
+    for u in m.UNITS:
+        if u["name"].endswith("_setProblemDefinition"):
+            v = _copy.deepcopy(u); v["name"] = v["name"].replace("c03_", "c01_"); out.append(v)
+    return out
+UNITS += _c03_query_units()
+
 ASSUMPTIONS = ["start states are addressed by index; bounds/validity of the start state at the ghost index are arbitrary fixed values", "exceptions (missing problem definition) are outside the modelled paths"]
 TRUSTED = ["extraction rewrite tables of units/C01.py, units/C17.py", "stubs in units/C01/inputs.c, units/C17/pathgeom.c", "CBMC 6.11 DFCC + minisat"]
 NOT_COVERED = ["THE SOLVE LOOPS OF THE ~45 GEOMETRIC AND MULTILEVEL PLANNERS: that every tree/roadmap edge is admitted only after checkMotion, that the reported path starts at a start state and ends in the goal region, status/flag consistency per planner, non-solution statuses adding no path (planner bodies are not under contract)",
